@@ -132,6 +132,7 @@ def validity_sym(path, group="/", value_cols=("count",)):
         if idx:
             conds.append(lens[ci] == ends[idx[-1]])
     out.append((and_(*conds), "chromosome lengths differ from the ends of the last bins"))
+    f.close()
     return out
 
 
@@ -259,6 +260,7 @@ def build_cooler_sym(path, bins, b1, b2, cols, upper=True, group="/", dtypes=Non
     g.attrs["nnz"] = K
     if "count" in cols:
         g.attrs["sum"] = ssum(list(cols["count"])) if K else 0
+    f.close()
     return uri
 
 
@@ -278,8 +280,11 @@ def build_cooler_real(path, bins, b1, b2, cols, upper=True, group="/", dtypes=No
 
 def read_pixels_sym(path, group="/"):
     from engine import symh5
-    g = symh5.File(path, "r")[group]
-    return {k: list(g["pixels"][k][:]) for k in g["pixels"].keys()}, g.attrs
+    f = symh5.File(path, "r")
+    g = f[group]
+    out = {k: list(g["pixels"][k][:]) for k in g["pixels"].keys()}, dict(g.attrs.items())
+    f.close()
+    return out
 
 
 def read_pixels_real(path, group="/"):
